@@ -624,6 +624,7 @@ class FlwdirRaster(Flwdir):
             linear indices of subbasin outlet cells
         """
         uparea = self._check_data(uparea, "uparea")
+        mask = None
         if upa_min is not None:
             mask = uparea >= upa_min
         subbas, idxs_out = basins.subbasins_pfafstetter(
